@@ -107,19 +107,40 @@ type pqInst struct {
 	cmp bool
 	k   int
 	div int
-	q   xheap.PriorityQueue[int, int]
+	q   shiftPQ
 	it  map[int]iterator.Iterator[int]
 }
 
+// shiftPQ presents the queue with spec keys 1..K while the library sees the keys 0..K-1: the zero value of the key type
+// is a key.
+type shiftPQ struct {
+	q xheap.PriorityQueue[int, int]
+}
+
+func (s shiftPQ) Update(k, p int)     { s.q.Update(k-1, p) }
+func (s shiftPQ) Remove(k int)        { s.q.Remove(k - 1) }
+func (s shiftPQ) Contains(k int) bool { return s.q.Contains(k - 1) }
+func (s shiftPQ) Priority(k int) int  { return s.q.Priority(k - 1) }
+func (s shiftPQ) Pop() int            { return s.q.Pop() + 1 }
+func (s shiftPQ) Peek() int           { return s.q.Peek() + 1 }
+func (s shiftPQ) Len() int            { return s.q.Len() }
+func (s shiftPQ) Grow(n int)          { s.q.Grow(n) }
+func (s shiftPQ) Iterate() iterator.Iterator[int] {
+	return iterator.Map(s.q.Iterate(), func(k int) int { return k + 1 })
+}
+
 // div > 1: a coarse order - priorities p, q with p/div == q/div tie although they are different values
-func newPQ(cmp bool, div int, initial []xheap.KP[int, int]) xheap.PriorityQueue[int, int] {
+func newPQ(cmp bool, div int, initial []xheap.KP[int, int]) shiftPQ {
+	for i := range initial {
+		initial[i].K--
+	}
 	if div < 1 {
 		div = 1
 	}
 	if cmp {
-		return xheap.NewPriorityQueueCmp(func(a, b int) int { return a/div - b/div }, initial)
+		return shiftPQ{xheap.NewPriorityQueueCmp(func(a, b int) int { return a/div - b/div }, initial)}
 	}
-	return xheap.NewPriorityQueue(func(a, b int) bool { return a/div < b/div }, initial)
+	return shiftPQ{xheap.NewPriorityQueue(func(a, b int) bool { return a/div < b/div }, initial)}
 }
 
 func (s PQ) New() lts.Instance {
@@ -183,7 +204,7 @@ type PQObs struct {
 
 // ObservePQ asks Contains/Priority for every key of the universe 1..k and lists the keys with a
 // fresh iterator. A key that Contains reports but whose Priority is the zero value shows as -1.
-func ObservePQ(q xheap.PriorityQueue[int, int], k int) PQObs {
+func ObservePQ(q shiftPQ, k int) PQObs {
 	o := PQObs{Prio: make([]int, k), Keys: []int{}, Len: q.Len()}
 	for i := 1; i <= k; i++ {
 		p := q.Priority(i)
